@@ -4,14 +4,17 @@
 (* domain; the real configurations must be the ones Config!TripleAt(key)    *)
 (* stands for (binding of the abstract values), the keys must enumerate the *)
 (* whole domain in increasing order, and the property operators of Config   *)
-(* judge the real acceptance / merge / endpoint results.  "Text" records:   *)
-(* the text form and re-parse of one enumeration value.                     *)
+(* judge the real acceptance / merge / endpoint results.  "Frame" records:  *)
+(* one lower configuration merged with several higher ones; every result    *)
+(* and operand is read again afterwards and after in-place mutation of the  *)
+(* others (C37_MergeFresh).  "Text" records: the text form and re-parse of  *)
+(* one enumeration value.                                                   *)
 (***************************************************************************)
 EXTENDS Config, TraceKit
 
 CONSTANTS Want
-VARIABLES l, fails, prev, ncfg, nacc, seenText, drift, done
-tvars == <<l, fails, prev, ncfg, nacc, seenText, drift, done>>
+VARIABLES l, fails, prev, prevF, ncfg, nframe, nacc, seenText, drift, done
+tvars == <<l, fails, prev, prevF, ncfg, nframe, nacc, seenText, drift, done>>
 
 IdxLess(a, b) == IF a[1] # b[1] THEN a[1] < b[1]
                  ELSE \E d \in DOMAIN a : /\ \A j \in 1..(d - 1) : a[j] = b[j]
@@ -40,6 +43,27 @@ CfgFails(i, r) ==
     \o Chk(Want, i, "C37_NoExecBits", C37_NoExecBits(r))
     \o (IF prev # <<>> /\ ~IdxLess(prev[1], r.in.k) THEN <<Fail(i, "C37_DomainCovered")>> ELSE <<>>)
 
+\* ---- Frame records (MergeConfigurations yields a fresh value)
+FrameFields == {"in", "lower", "highers", "first", "after", "lowerAfter", "highersAfter", "firstB", "resMut", "opMut"}
+AllCfg(q) == \A j \in DOMAIN q : IsCfgMap(q[j])
+FrameWF(r) == /\ FrameFields \subseteq DOMAIN r /\ "k" \in DOMAIN r.in /\ FrameKeyOK(r.in.k)
+              /\ IsCfgMap(r.lower) /\ IsCfgMap(r.lowerAfter) /\ AllCfg(r.highers) /\ AllCfg(r.highersAfter)
+              /\ AllCfg(r.first) /\ AllCfg(r.after) /\ AllCfg(r.firstB)
+              /\ Len(r.highers) = Len(FrameHighers(r.in.k)) /\ Len(r.first) = Len(r.highers) /\ Len(r.after) = Len(r.first)
+              /\ Len(r.firstB) = Len(r.first) /\ Len(r.highersAfter) = Len(r.highers)
+              /\ {"lower", "highers", "results"} \subseteq DOMAIN r.resMut /\ "results" \in DOMAIN r.opMut
+              /\ Len(r.resMut.results) = Len(r.first) - 1 /\ Len(r.opMut.results) = Len(r.first) - 1
+              /\ AllCfg(r.resMut.results) /\ AllCfg(r.opMut.results) /\ IsCfgMap(r.resMut.lower) /\ AllCfg(r.resMut.highers)
+\* the operands are the ones the key denotes
+FrameBound(r) == /\ r.lower = Concrete(ListCfg(r.in.k[1]))
+                 /\ \A j \in DOMAIN r.highers : r.highers[j] = Concrete(ListCfg(FrameHighers(r.in.k)[j]))
+FrameConforms(r) == \A j \in DOMAIN r.first : r.first[j] = FrameExpected(r.in.k, j)
+FrameFails(i, r) ==
+  IF ~FrameWF(r) THEN <<Fail(i, "C37_TraceAccepted")>>
+  ELSE Chk(Want, i, "C37_TraceAccepted", FrameBound(r))
+    \o Chk(Want, i, "C37_MergeFresh", C37_MergeFresh(r))
+    \o (IF prevF # <<>> /\ ~IdxLess(<<0>> \o prevF[1], <<0>> \o r.in.k) THEN <<Fail(i, "C37_DomainCovered")>> ELSE <<>>)
+
 TextWF(r) == {"type", "value", "text", "ok", "back"} \subseteq DOMAIN r /\ (r.type = "fsmode" \/ r.type \in TextTypes)
 TextFails(i, r) ==
   IF ~TextWF(r) THEN <<Fail(i, "C37_TraceAccepted")>>
@@ -47,7 +71,7 @@ TextFails(i, r) ==
 TextConforms(r) == r.type = "fsmode" \/ (HasText(r.type, r.value) => r.text = TextOf(r.type, r.value))
 AllText == {<<t, v>> : t \in TextTypes, v \in 0..4} \cap {<<t, v>> \in TextTypes \X (0..5) : v <= Len(TextNames[t])}
 
-TInit == /\ l = 1 /\ fails = <<>> /\ prev = <<>> /\ ncfg = 0 /\ nacc = 0 /\ seenText = {} /\ drift = 0 /\ done = FALSE
+TInit == /\ l = 1 /\ fails = <<>> /\ prev = <<>> /\ prevF = <<>> /\ nframe = 0 /\ ncfg = 0 /\ nacc = 0 /\ seenText = {} /\ drift = 0 /\ done = FALSE
 Step == /\ l <= NRec
         /\ LET r == Trace[l] IN
            IF r.ev = "Cfg" THEN
@@ -57,25 +81,32 @@ Step == /\ l <= NRec
              /\ ncfg' = IF wf THEN ncfg + 1 ELSE ncfg
              /\ nacc' = IF wf /\ Accepted(r) THEN nacc + 1 ELSE nacc
              /\ drift' = IF wf /\ "Conforms" \in Want /\ ~Conforms(r) THEN drift + 1 ELSE drift
-             /\ UNCHANGED seenText
+             /\ UNCHANGED <<seenText, prevF, nframe>>
+           ELSE IF r.ev = "Frame" THEN
+             LET wf == FrameWF(r) IN
+             /\ fails' = Cap(fails \o FrameFails(l, r))
+             /\ prevF' = IF wf THEN <<r.in.k>> ELSE prevF
+             /\ nframe' = IF wf THEN nframe + 1 ELSE nframe
+             /\ drift' = IF wf /\ "Conforms" \in Want /\ ~FrameConforms(r) THEN drift + 1 ELSE drift
+             /\ UNCHANGED <<prev, ncfg, nacc, seenText>>
            ELSE IF r.ev = "Text" THEN
              /\ fails' = Cap(fails \o TextFails(l, r))
              /\ seenText' = IF TextWF(r) THEN seenText \cup {<<r.type, r.value>>} ELSE seenText
              /\ drift' = IF TextWF(r) /\ "Conforms" \in Want /\ ~TextConforms(r) THEN drift + 1 ELSE drift
-             /\ UNCHANGED <<prev, ncfg, nacc>>
+             /\ UNCHANGED <<prev, prevF, ncfg, nframe, nacc>>
            ELSE /\ fails' = Cap(Append(fails, Fail(l, "C37_TraceAccepted")))
-                /\ UNCHANGED <<prev, ncfg, nacc, seenText, drift>>
+                /\ UNCHANGED <<prev, prevF, ncfg, nframe, nacc, seenText, drift>>
         /\ l' = l + 1 /\ UNCHANGED done
 \* a full run (a replay has one record) covers every key and every enumeration value
-Covered == NRec > 1 => /\ ncfg = NKeys
+Covered == NRec > 1 => /\ ncfg = NKeys /\ nframe = NFrameKeys
                        /\ AllText \subseteq seenText
                        /\ \E p \in seenText : p[1] = "fsmode"
 Finish == /\ l = NRec + 1 /\ ~done
           /\ WriteResult(l - 1,
                          Cap(fails \o (IF "C37_DomainCovered" \in Want /\ ~Covered THEN <<Fail(NRec, "C37_DomainCovered")>> ELSE <<>>)),
-                         [stat_drift |-> drift, stat_configurations |-> ncfg, stat_accepted |-> nacc,
+                         [stat_drift |-> drift, stat_configurations |-> ncfg, stat_frame_scenarios |-> nframe, stat_accepted |-> nacc,
                           stat_text_values |-> Cardinality(seenText)])
-          /\ done' = TRUE /\ UNCHANGED <<l, fails, prev, ncfg, nacc, seenText, drift>>
+          /\ done' = TRUE /\ UNCHANGED <<l, fails, prev, prevF, ncfg, nframe, nacc, seenText, drift>>
 TNext == Step \/ Finish
 TSpec == TInit /\ [][TNext]_tvars
 ====
